@@ -363,8 +363,24 @@ def strat_l2(tier):
 def strat_l1(tier):
     @st.composite
     def c(draw):
-        g = draw(gen.cfgs(max_nts=3, max_alts=3, max_rhs=3, min_terms=2, max_terms=4, terms_pool=gen.L1_TERMS))
+        # incl. terminals that match across a space: a token then competes with a shorter one that is
+        # followed by layout (heads with different layout ahead meet in one GSS node)
+        pool = gen.L1_TERMS + [("asa", "re", r"a(\ a)?"), ("a_b", "re", r"a\ ?b"), ("bsp", "re", r"b(\ b)*")]
+        g = draw(gen.cfgs(max_nts=3, max_alts=3, max_rhs=3, min_terms=2, max_terms=4, terms_pool=pool))
         fill = draw(st.lists(st.sampled_from([" ", "\n", "  ", "\t"]), min_size=1, max_size=3))
+        return {"g": g, "lex": "L1", "layout": "ws", "fill": fill, "max_len": 4}
+    return c()
+
+
+def strat_l1_space(tier):
+    """small pool of terminals that match across a space next to their one-token prefixes"""
+    @st.composite
+    def c(draw):
+        # (parglare compiles regexes in verbose mode: an unescaped space would be ignored)
+        pool = [("a", "str", "a"), ("asa", "re", r"a(\ a)?"), ("b", "str", "b"), ("bsp", "re", r"b(\ b)*"),
+                ("ab", "re", r"a\ ?b")]
+        g = draw(gen.cfgs(max_nts=2, max_alts=3, max_rhs=3, min_terms=2, max_terms=3, terms_pool=pool))
+        fill = draw(st.lists(st.sampled_from([" ", "  ", "\n"]), min_size=1, max_size=2))
         return {"g": g, "lex": "L1", "layout": "ws", "fill": fill, "max_len": 4}
     return c()
 
@@ -397,6 +413,8 @@ SUBCHECKS = [
     SubCheck("random-L0", run_case, strategy=strat_l0, examples={"quick": 1600, "thorough": 16000}),
     SubCheck("random-L2-multichar", run_case, strategy=strat_l2, examples={"quick": 640, "thorough": 6400}),
     SubCheck("random-L1-overlapping", run_case, strategy=strat_l1, examples={"quick": 640, "thorough": 6400}),
+    SubCheck("random-L1-tokens-across-layout", run_case, strategy=strat_l1_space,
+             examples={"quick": 960, "thorough": 9600}),
     SubCheck("nullable-chain-family", run_case, strategy=strat_chain, examples={"quick": 640, "thorough": 6400}),
 ]
 
